@@ -56,13 +56,22 @@ class World:
                 out.append(r)
         return out
 
-    def wait_event(self, pred, timeout=8.0):
+    def mark(self):
+        """position in the log: wait_event(..., since=mark) only looks at what is logged afterwards"""
+        return len(self.events())
+
+    def wait_event(self, pred, timeout=8.0, since=0):
         t0 = time.time()
         while time.time() - t0 < timeout:
-            if any(pred(r) for r in self.events()):
+            if any(pred(r) for r in self.events()[since:]):
                 return True
             time.sleep(0.02)
         return False
+
+    def told(self, j, since, timeout=20.0):
+        """waits until the waiting job j is told that its request fits (an orphan's process is only seen as gone once
+        it has been reaped, which can take seconds); returns whether that happened"""
+        return self.wait_event(lambda r: r["e"] == "tok.dep.changed" and r.get("job") == j and r.get("new") == "OK", timeout, since)
 
     # --- processes
     def start(self, p):
@@ -190,8 +199,9 @@ def sc_contention():
     w.start("p1"); w.start("p2")
     w.submit("a"); w.submit("b")
     w.acquire("a"); w.acquire("b")
+    m = w.mark()
     w.startjob("a"); w.endjob("a"); w.release("a")
-    w.wait_event(lambda r: r["e"] == "tok.dep.changed" and r.get("job") == "b" and r.get("new") == "OK")
+    w.told("b", m, 10)
     w.acquire("b"); w.startjob("b"); w.endjob("b"); w.release("b")
     w.quiescent()
     return w.close()
@@ -210,8 +220,9 @@ def sc_halfwritten():
     w.go("create.opened", "p1")
     w.recv("p1")
     w.acquire("b")
+    m = w.mark()
     w.startjob("a"); w.endjob("a"); w.release("a")
-    w.wait_event(lambda r: r["e"] == "tok.dep.changed" and r.get("job") == "b" and r.get("new") == "OK", timeout=4)
+    w.told("b", m, 10)
     w.quiescent()
     return w.close()
 
@@ -223,8 +234,9 @@ def sc_owner_dies_running():
     w.submit("a"); w.acquire("a"); w.startjob("a")
     w.kill("p1")
     w.submit("b"); w.acquire("b")
+    m = w.mark()
     w.endjob("a")
-    w.wait_event(lambda r: r["e"] == "tok.dep.changed" and r.get("job") == "b" and r.get("new") == "OK", timeout=6)
+    w.told("b", m)
     w.quiescent()
     w.acquire("b"); w.release("b")
     w.quiescent(0.3)
@@ -261,9 +273,11 @@ def sc_partial_returns():
     w.submit("a"); w.submit("b"); w.acquire("a"); w.acquire("b"); w.startjob("a"); w.startjob("b")
     w.submit("c"); w.acquire("c")
     w.kill("p1")
-    w.endjob("a"); time.sleep(0.6)
+    m = w.mark()
+    w.endjob("a")
+    w.wait_event(lambda r: r["e"] == "tok.file.delete" and r.get("job") == "a", 20, m)     # (the first unit comes back alone)
     w.endjob("b")
-    w.wait_event(lambda r: r["e"] == "tok.dep.changed" and r.get("job") == "c" and r.get("new") == "OK", timeout=6)
+    w.told("c", m)
     w.quiescent()
     r = w.acquire("c")
     if r and r.get("acquired"):
@@ -280,8 +294,9 @@ def sc_mixed():
     w.acquire("a"); w.acquire("c"); w.acquire("b"); w.acquire("c")
     w.startjob("a"); w.startjob("b")
     w.endjob("a"); w.release("a"); w.acquire("c")
+    m = w.mark()
     w.endjob("b"); w.release("b")
-    w.wait_event(lambda r: r["e"] == "tok.dep.changed" and r.get("job") == "c" and r.get("new") == "OK", timeout=6)
+    w.told("c", m, 10)
     w.quiescent()
     r = w.acquire("c")
     if r and r.get("acquired"):
